@@ -77,6 +77,7 @@ structure Params where
   firstMax : Nat    -- `max_requests` of the first configured upstream (0 = not set)
   badStatus : List Nat  -- passive unhealthy_status entries (a value < 100 is a class: 5 = 5xx)
   latency  : Bool   -- passive unhealthy_latency configured (a round trip at least that long is a strike)
+  closeStreams : Bool  -- stream_close_delay unset (the default): Cleanup closes upgraded connections at once
   aOn      : Bool   -- active health checks enabled (health_checks.active with a uri)
   aPasses  : Nat    -- active `passes` threshold (Provision turns < 1 into 1)
   aFails   : Nat    -- active `fails` threshold (Provision turns < 1 into 1)
